@@ -193,8 +193,40 @@ def run(ck: Check) -> int:
     ck.search('glob-vs-Denotes', s_search)
 
     if not quick:
+        def on_bash_diff(t, p, fl, dotglob, glob_only, bash_only):
+            """wcmatch vs Bash 5.2 on the shared syntax: two systematic differences are known"""
+            def hidden(x):
+                return any(c.startswith('.') and c not in ('.', '..') for c in x.split('/'))
+
+            def through_link(x):
+                cs = x.split('/')
+                return any(os.path.islink(os.path.join(t.root, *cs[:j])) for j in range(1, len(cs)))
+            ids = set()
+            ok = True
+            for x in glob_only:
+                if not dotglob and hidden(x):
+                    ids.add('KF-B1')     # `*.*` / `*h` takes a hidden name in wcmatch (the dot is written), not in Bash
+                else:
+                    ok = False
+            for x in bash_only:
+                if '**' in p and through_link(x):
+                    ids.add('KF-B2')     # Bash lets `**/` end on a symlinked directory and lists inside it
+                else:
+                    ok = False
+            c = K.Case(p, fl, None, 'root_dir')
+            f = Failing('glob differs from Bash 5.2 pathname expansion', {**c.to_json(G, t), 'dotglob': dotglob},
+                        {'bash_only': sorted(bash_only)[:8]}, {'glob_only': sorted(glob_only)[:8]}, 'wcmatch/_wcparse.py:208 / wcmatch/glob.py:687')
+            if ok and ids:
+                for i in ids:
+                    ck.report(f, i)
+            else:
+                found_bash.append(f)
+        found_bash: list = []
+
         def s_bash(sr):
-            bash_validation(sr, drv, G, W, U, common.rng('C05-bash'), 1500)
+            bash_validation(sr, drv, G, W, U, common.rng('C05-bash'), 1500, on_bash_diff)
+            for f in found_bash:
+                ck.report(f, None)
         ck.search('Denotes-vs-bash(validation of the spec, not proof)', s_bash)
     if drv:
         drv.close()
@@ -209,7 +241,7 @@ BASH_SEGS = ['*', '**', '?', 'a*', '*b', '[ab]', '[!a]', '@(a|b)', '+(a|b)', '?(
              'a.b', '.h', '.', '..', '[A-Z]', '??', '*h']
 
 
-def bash_validation(sr, drv, G, W, U, R, ntrees):
+def bash_validation(sr, drv, G, W, U, R, ntrees, on_bash_diff=None):
     sr.note = ('Spec.denoteTop vs `bash -O globstar -O extglob [-O dotglob] -O globskipdots -O nullglob` on the same real '
                'trees (names restricted to a b A .h a.b ab; relative patterns; negation-free, empty-alternative-free). '
                'Known presentation differences are normalised: Bash prints `dir/` only when the pattern ends with `/`')
@@ -242,6 +274,11 @@ def bash_validation(sr, drv, G, W, U, R, ntrees):
                 den = {common.dec(x[1:]) for x in m.split(' ')[1:] if x}
                 sr.evaluations += 1
                 norm = lambda s: {x.rstrip('/') or x for x in s}  # noqa: E731
+                # the property's own Bash clause: the REAL glob against bash, classified
+                st, ev = K.run_real(G, t, p, fl, None, 'root_dir')
+                real = {x for k, x in ev if k == 'y'} if st == 'ok' else None
+                if real is not None and norm(real) != norm(bash) and on_bash_diff is not None:
+                    on_bash_diff(t, p, fl, dotglob, norm(real) - norm(bash), norm(bash) - norm(real))
                 if norm(bash) == norm(den):
                     sr.histogram['equal'] = sr.histogram.get('equal', 0) + 1
                     if bash:
